@@ -1,15 +1,15 @@
 (* C04 - NFC-DEP delivers each payload exactly once, intact, or reports failure.
    Only statements here; proofs are in Proofs/DepCodec.v, DepTarget.v, DepBound.v, DepSrr.v,
-   DepExact.v, DepSafety.v.  The model (Model/Dep.v) is of the repaired code (committed repairs b836295, 7efe465, 0d645cb, 2786f8b and
-   fixes/c04-nak-ack-retransmit-chained.diff).
+   DepExact.v, DepSafety.v.  The model (Model/Dep.v) is of the repaired code (/repo HEAD: b836295, 7efe465, 0d645cb, 2786f8b, d00e425 and the C07 repairs
+   6c4ecdb, 8087fdd, 46c0c37).
 
    conversation n fuel ic tc script payloads app timeout release
      runs a real-code-shaped Initiator (exchange over send_dep_req_recv_dep_res with ATN / NAK
      recovery and the deadline) against the Target machine over an air that assigns a fate
      (deliver / lose / corrupt) to every request and every response frame by `script`. *)
 From Coq Require Import ZArith List Bool.
-From NV Require Import Base.Result Base.Bytes Model.Dep
-  Proofs.DepCodec Proofs.DepTarget Proofs.DepBound Proofs.DepSrr Proofs.DepExact Proofs.DepSafety.
+From NV Require Import Base.Result Base.Bytes Model.Dep Gen.DepK
+  Proofs.DepCodec Proofs.DepTarget Proofs.DepBound Proofs.DepSrr Proofs.DepExact Proofs.DepSafety Bridge.Dep.
 Import ListNotations.
 Open Scope Z_scope.
 
@@ -52,7 +52,7 @@ Print Assumptions C04_dep_safety.
 (* --- any single lost or corrupted frame per protocol step is recovered transparently: for EVERY script in which each
        faulty round (request or response lost or corrupted) is followed by two fault free rounds, all payload sizes
        and conversation lengths, the result is exact (exchange time-out at least two response waiting times).
-       No guard on the kind of frame: with fixes/c04-nak-ack-retransmit-chained.diff a corrupted ACK response during
+       No guard on the kind of frame: since d00e425 a corrupted ACK response during
        initiator chaining is recovered like any other frame. --- *)
 Theorem C04_dep_single_fault_recovered : forall b106 lri lrt did nad n fuel script P R timeout release,
   did_valid did -> Z.max 0 timeout < Z.of_nat fuel -> 2 <= timeout -> Sparse script ->
@@ -97,6 +97,108 @@ Theorem C04_codec_res : forall b d f, dep_wf d ->
   encode_frame b (enc_pdu (PDepRes d)) = Ok f -> decode_frame_ini b f = Ok (PDepRes d).
 Proof. exact decode_ini_dep. Qed.
 Print Assumptions C04_codec_res.
+
+(* --- tie: the kernels regenerated from src/nfc/dep.py on this run (Gen/DepK.v) are what Model/Dep.v is built from --- *)
+Theorem C04_bridge_fmt_consts : gen_LastInformation = F_INF /\ gen_MoreInformation = F_MORE /\ gen_PositiveAck = F_ACK /\
+  gen_NegativeAck = F_NAK /\ gen_Attention = F_ATN /\ gen_TimeoutExtension = F_RTOX.
+Proof. exact bridge_fmt_consts. Qed.
+Print Assumptions C04_bridge_fmt_consts.
+(* PFB octet: (fmt << 4) | (nad << 3) | (did << 2) | pni is the model's pfb_byte, the four decoded fields are dec_dep's *)
+Theorem C04_bridge_pfb_encode : forall d, dep_wf d ->
+  gen_pfb_encode (fmt d) (is_some (nad d)) (is_some (did d)) (pni d) = pfb_byte d.
+Proof. exact bridge_pfb_encode. Qed.
+Print Assumptions C04_bridge_pfb_encode.
+Theorem C04_bridge_dec_dep : forall p r, 0 <= p < 256 ->
+  dec_dep (p :: r) =
+  (do x1 <- (if gen_pfb_did p then match r with [] => Err ProtocolError | x :: r' => Ok (Some x, r') end else Ok (None, r));
+   do x2 <- (if gen_pfb_nad p then match snd x1 with [] => Err ProtocolError | x :: r' => Ok (Some x, r') end else Ok (None, snd x1));
+   Ok (mkdep (gen_pfb_fmt p) (gen_pfb_pni p) (fst x1) (fst x2) (snd x2))).
+Proof. exact bridge_dec_dep. Qed.
+Print Assumptions C04_bridge_dec_dep.
+(* the packet number step at all four sites is (pni + 1) mod 4 *)
+Theorem C04_bridge_pni_next : forall p,
+  gen_i_pni_next_1 p = (p + 1) mod 4 /\ gen_i_pni_next_2 p = (p + 1) mod 4 /\
+  gen_t_pni_next_1 p = (p + 1) mod 4 /\ gen_t_pni_next_2 p = (p + 1) mod 4.
+Proof. exact bridge_pni_next. Qed.
+Print Assumptions C04_bridge_pni_next.
+(* payload slicing by self.miu *)
+Theorem C04_bridge_chunks : forall sd miu, 0 <= miu ->
+  gen_i_chunk sd miu = take miu sd /\ gen_i_rest sd miu = drop miu sd /\ gen_i_more (gen_i_rest sd miu) = nonempty (drop miu sd) /\
+  gen_t_chunk sd miu = take miu sd /\ gen_t_rest sd miu = drop miu sd /\ gen_t_more sd miu = (miu <? len sd).
+Proof. exact bridge_chunks. Qed.
+Print Assumptions C04_bridge_chunks.
+(* one iteration of the initiator's send loop and the target's first chunk, written with the regenerated kernels *)
+Theorem C04_bridge_send_loop : forall n fuel ic tc p b sd last timeout w, 0 <= ic_miu ic ->
+  send_loop (S n) fuel ic tc p (b :: sd) last timeout w =
+  let sd0 := b :: sd in
+  let req := i_dep ic (if gen_i_more (gen_i_rest sd0 (ic_miu ic)) then gen_MoreInformation else gen_LastInformation) p
+                   (gen_i_chunk sd0 (ic_miu ic)) in
+  match srr fuel ic tc p req 1 timeout w with
+  | (Ok r0, w1) =>
+      match after_rtox fuel ic tc p r0 timeout w1 with
+      | (Ok r, w2) =>
+          if (fmt r =? gen_PositiveAck) && negb (gen_i_more (gen_i_rest sd0 (ic_miu ic))) then (Err ProtocolError, w2)
+          else if negb (pni r =? p) then (Err ProtocolError, w2)
+          else send_loop n fuel ic tc (gen_i_pni_next_1 p) (gen_i_rest sd0 (ic_miu ic)) (Some r) timeout w2
+      | (Err e, w2) => (Err e, w2) | (Crash c, w2) => (Crash c, w2) | (Hang, w2) => (Hang, w2)
+      end
+  | (Err e, w1) => (Err e, w1) | (Crash c, w1) => (Crash c, w1) | (Hang, w1) => (Hang, w1)
+  end.
+Proof. exact bridge_send_loop. Qed.
+Print Assumptions C04_bridge_send_loop.
+Theorem C04_bridge_start_send : forall c t x resp p, 0 <= tc_miu c -> t_pni t = Some p ->
+  t_start_send c t (x :: resp) =
+  t_emit t (TSend (x :: resp)) (mkdep (if gen_t_more (x :: resp) (tc_miu c) then gen_MoreInformation else gen_LastInformation) p
+                                      (tc_did c) (tc_nad c) (gen_t_chunk (x :: resp) (tc_miu c))).
+Proof. exact bridge_start_send. Qed.
+Print Assumptions C04_bridge_start_send.
+Theorem C04_bridge_t_accept_recv : forall c t d acc p, t_pos t = TRecv acc -> t_pni t = Some p ->
+  t_accept c t d =
+  let t1 := t_set_pni t (gen_t_pni_next_2 p) in
+  if negb (pni d =? gen_t_pni_next_2 p) then t_stop t1 (TErr ProtocolError) else t_recv_chain c t1 d acc.
+Proof. exact bridge_t_accept_recv. Qed.
+Print Assumptions C04_bridge_t_accept_recv.
+(* RTOX value range test, RTOX mask, number of RTOX rounds *)
+Theorem C04_bridge_rtox : forall x, gen_rtox_bad x = negb ((0 <? x) && (x <? 60)) /\ gen_rtox_mask x = Z.land x 63.
+Proof. exact bridge_rtox. Qed.
+Print Assumptions C04_bridge_rtox.
+Theorem C04_bridge_after_rtox : forall fuel ic tc p r timeout w,
+  after_rtox fuel ic tc p r timeout w = if fmt r =? gen_TimeoutExtension then rtox_loop gen_n_rtox fuel ic tc p r timeout w else (Ok r, w).
+Proof. exact bridge_after_rtox. Qed.
+Print Assumptions C04_bridge_after_rtox.
+(* retry counts of request_attention / request_retransmission and the chained flag *)
+Theorem C04_bridge_srr_loop : forall f ic tc p d rwt deadline w,
+  srr_loop (S f) ic tc p (PDepReq d) rwt deadline w =
+  let timeout := Z.min rwt (deadline - w_now w) in
+  if timeout <=? 0 then (Err TimeoutError, w) else
+  match srr1 ic tc (PDepReq d) timeout w with
+  | (Ok r, w1) => (Ok r, w1)
+  | (Err TimeoutError, w1) =>
+      match req_atn gen_n_retry_atn ic tc rwt deadline w1 with
+      | (Ok _, w2) => srr_loop f ic tc p (PDepReq d) rwt deadline w2
+      | (Err e, w2) => (Err e, w2) | (Crash x, w2) => (Crash x, w2) | (Hang, w2) => (Hang, w2)
+      end
+  | (Err TransmissionError, w1) => req_nak gen_n_retry_nak ic tc p (gen_is_chained (fmt d)) rwt deadline w1
+  | (Err e, w1) => (Err e, w1) | (Crash x, w1) => (Crash x, w1) | (Hang, w1) => (Hang, w1)
+  end.
+Proof. exact bridge_srr_loop. Qed.
+Print Assumptions C04_bridge_srr_loop.
+Theorem C04_bridge_nak_expected : forall ch f,
+  existsb (fun k => f =? k) (gen_nak_expected ch) = (f =? F_INF) || (f =? F_MORE) || (ch && (f =? F_ACK)).
+Proof. exact bridge_nak_expected. Qed.
+Print Assumptions C04_bridge_nak_expected.
+(* frame length octet / 106A start byte: construction and checks, with their exception classes *)
+Theorem C04_bridge_encode_frame : forall b body, gen_i_encode_frame b body = encode_frame b body /\ gen_t_encode_frame b body = encode_frame b body.
+Proof. exact bridge_encode_frame. Qed.
+Print Assumptions C04_bridge_encode_frame.
+Theorem C04_bridge_strip_frame : forall b f, gen_i_strip_frame b f = strip_frame b f /\ gen_t_strip_frame b f = strip_frame b f.
+Proof. exact bridge_strip_frame. Qed.
+Print Assumptions C04_bridge_strip_frame.
+Theorem C04_bridge_code : forall b f c0 c1 r, strip_frame b f = Ok (c0 :: c1 :: r) ->
+  (gen_i_code_bad c0 c1 = true -> decode_frame_ini b f = Err ProtocolError) /\
+  (gen_t_code_bad c0 c1 = true -> decode_frame_tgt b f = Err ProtocolError).
+Proof. intros. split; [eapply bridge_code_i | eapply bridge_code_t]; eassumption. Qed.
+Print Assumptions C04_bridge_code.
 
 (* non-vacuity: a conversation of five exchanges (beyond the PNI wrap) with chaining in both directions,
    DID and NAD, a lost request, a corrupted information response and a lost response is completed exactly;
